@@ -436,6 +436,32 @@ def run(scenario, world):
                         what, h_), step)
     data_dirty = set()
     check_inputs(-1)
+    # building the derived objects must leave the user's own models as they
+    # were: compare their names with those of the same model built alone
+    for r in recipes:
+        # (population models are told their dimension names and number of
+        # individuals by whoever uses them: that is chi's design)
+        if r['kind'] not in ('mech', 'error'):
+            continue
+        was_m = world.muted
+        world.muted += 1
+        try:
+            alone = call(Table(recipes).get, r['h'])
+        finally:
+            world.muted = was_m
+        mine = main.get(r['h'])
+        if is_exc(alone):
+            continue
+        f_ = (lambda o_: list(o_.parameters()) + list(o_.outputs())) \
+            if r['kind'] == 'mech' else (
+                lambda o_: list(o_.get_parameter_names()))
+        a_, b_ = call(f_, mine), call(f_, alone)
+        if is_exc(a_) or is_exc(b_) or a_ != b_:
+            raise Violation(
+                'user_model_changed', 'by_construction',
+                'the user\'s %s model %s reports %s after the derived '
+                'objects were built from it; built alone it reports %s' % (
+                    r['kind'], r['h'], short(a_), short(b_)), -1)
     refs = {}           # distinct query -> reference result
     dirty = set()       # user models changed by the caller (F5)
     triples = []
@@ -1098,6 +1124,18 @@ def generate(rng, index, tier):
             else:
                 op['how'] = 'rename'
             ops.append(op)
+            # ... and straight afterwards something built from that model is
+            # looked at (it must have kept its own copy)
+            deps_ = [h_ for h_ in handles
+                     if kinds[h_] in ('loglik', 'logpost', 'pred', 'hier')
+                     and h_ != h]
+            if deps_ and rng.random() < 0.7:
+                h2 = rng.choice(deps_)
+                ops.append({'op': 'eval', 'on': h2, 'q': rng.choice(
+                    [q_ for q_ in EVALS[kinds[h2]]
+                     if q_ in ('names', 'call', 'pw', 'sample')]
+                    or EVALS[kinds[h2]]),
+                    'point': rng.randint(0, 2), 'variant': 'array'})
         elif r < 0.12 and par_on:
             cands = [h for h in handles
                      if kinds[h] in ('logpost', 'hierpost', 'filterpost',
